@@ -129,6 +129,17 @@ def PyVal.tyName : PyVal → String
 def pyIsInst (v : PyVal) (tys : List String) : Bool :=
   tys.contains v.tyName || (v.tyName == "bool" && tys.contains "int") || tys.contains "object"
 
+mutual
+/-- usable as a dictionary key: everything but lists, dictionaries and tuples containing them -/
+def PyVal.hashable : PyVal → Bool
+  | .list _ | .dict _ => false
+  | .tuple xs => hashableL xs
+  | _ => true
+def hashableL : List PyVal → Bool
+  | [] => true
+  | x :: r => x.hashable && hashableL r
+end
+
 /-! ### sequences -/
 
 /-- Python index normalisation: negative indices count from the end -/
@@ -158,8 +169,7 @@ def pyGetItem (x i : PyVal) : PyM PyVal :=
     | .str k => match kvs.lookup k with
       | some v => pure v
       | Option.none => raise "KeyError" k
-    | .list _ | .dict _ => raise "TypeError" "unhashable type"
-    | _ => raise "KeyError" "key"
+    | _ => if i.hashable then raise "KeyError" "key" else raise "TypeError" "unhashable type"
   | _ => raise "TypeError" "object is not subscriptable"
 
 /-- clamp of a slice bound -/
@@ -248,7 +258,7 @@ def pySetItem (x i v : PyVal) : PyM PyVal :=
     | .str k =>
       if kvs.any (fun kv => kv.1 == k) then pure (.dict (kvs.map (fun kv => if kv.1 == k then (k, v) else kv)))
       else pure (.dict (kvs ++ [(k, v)]))
-    | _ => raise "TypeError" "unsupported dict key"
+    | _ => if i.hashable then raise "Unsupported" "dict key that is not a string" else raise "TypeError" "unhashable type"
   | .tuple _ | .str _ => raise "TypeError" "object does not support item assignment"
   | _ => raise "TypeError" "object does not support item assignment"
 
@@ -271,8 +281,7 @@ def pyMkDictAux : List (PyVal × PyVal) → List (String × PyVal) → PyM PyVal
   | (k, v) :: r, acc =>
     match k with
     | .str s => pyMkDictAux r (dictInsert acc s v)
-    | .list _ | .dict _ => raise "TypeError" "unhashable type"
-    | _ => raise "Unsupported" "dict key that is not a string"
+    | _ => if k.hashable then raise "Unsupported" "dict key that is not a string" else raise "TypeError" "unhashable type"
 def pyMkDict (kvs : List (PyVal × PyVal)) : PyM PyVal := pyMkDictAux kvs []
 
 /-- `d.get(k, dflt)` -/
@@ -281,8 +290,7 @@ def pyDictGet (d k dflt : PyVal) : PyM PyVal :=
   | .dict kvs =>
     match k with
     | .str s => pure ((kvs.lookup s).getD dflt)
-    | .list _ | .dict _ => raise "TypeError" "unhashable type"
-    | _ => pure dflt
+    | _ => if k.hashable then pure dflt else raise "TypeError" "unhashable type"
   | _ => raise "AttributeError" "get"
 
 /-- `d.items()` as a list of 2-tuples -/
@@ -308,8 +316,7 @@ def pyIn (a b : PyVal) : PyM Bool :=
   | .dict kvs =>
     match a with
     | .str k => pure (kvs.any (fun kv => kv.1 == k))
-    | .list _ | .dict _ => raise "TypeError" "unhashable type"
-    | _ => pure false
+    | _ => if a.hashable then pure false else raise "TypeError" "unhashable type"
   | .str s =>
     match a with
     | .str t => pure (isInfixStr t.toList s.toList)
